@@ -20,7 +20,11 @@ STATE = "anstyle_parse::state::definitions::State"
 class Scanner:
     def __init__(self, facts, name):
         self.facts = facts
-        self.body = facts.body(CRATE, MOD + name)
+        import norm
+        b0 = facts.body(CRATE, MOD + name)
+        # the scanners' tests of the carried state are read in their `if *state == State::X` form; `match *state { State::X => .., other => .. }`
+        # is the same test
+        self.body = dict(b0, hir=norm.variant_match_to_if(b0["hir"]))
         self.name = name
         b = self.body
         ps = [p for p in b["params"] if p.get("k") == "pbind"]
@@ -87,14 +91,39 @@ class Scanner:
         return hir.visit_with_conds(root, lambda n: n.get("k") in ("assign", "assignop") and self.is_carried(n["l"]))
 
 
+def _after(root, first, second):
+    """`second` comes after `first` in evaluation order (pre-order position in the statement; both are statement-level here)."""
+    order = [id(x) for x in hir.walk(root)]
+    try:
+        return order.index(id(second)) > order.index(id(first))
+    except ValueError:
+        return False
+
+
 def state_arg_ok(sc, call, frames, rep, where_fn):
     """S2: the state argument of a state_change call denotes the carried state at this point."""
     a0 = hir.simp(call["args"][0])
     if sc.is_carried(a0):
         return True, "carried state `*state`"
     if a0.get("k") == "local":
-        # an un-overwritten copy: `let L = *state;` at top level, and no store into *state afterwards
         name = a0["name"]
+        # a copy taken in the same block just before: `let L = *state; .. state_change(L, b)` with no store into *state between
+        for blk in hir.walk(sc.body["hir"]):
+            if blk.get("k") != "block":
+                continue
+            st = blk.get("stmts", [])
+            for i, s in enumerate(st):
+                if isinstance(s, dict) and s.get("k") == "let" and s["pat"].get("k") == "pbind" and s["pat"].get("id") == a0.get("id") and "init" in s \
+                        and "Mut" not in str(s["pat"].get("mode", "")).split(",")[-1] and sc.is_carried(s["init"]):
+                    after = st[i + 1:] + ([blk["expr"]] if "expr" in blk else [])
+                    for t in after:
+                        if any(x is call for x in hir.walk(t)):
+                            if not sc.stores_to_state(t) or all(_after(t, call, n_) for n_, _f in sc.stores_to_state(t)):
+                                return True, f"copy `{name}` of the carried state taken just before, not overwritten in between"
+                            break
+                        if sc.stores_to_state(t):
+                            break
+        # an un-overwritten copy: `let L = *state;` at top level, and no store into *state afterwards
         for i, s in enumerate(sc.top):
             if s.get("k") == "let" and s["pat"].get("k") == "pbind" and s["pat"]["name"] == name and "init" in s:
                 if sc.is_carried(s["init"]):
@@ -301,8 +330,10 @@ def _atoms_for(sc, clo, path, facts=None):
             elif p.get("k") == "pbind":
                 lets[p["name"]] = (t[2], None)
 
-    def kind(e):
+    def kind(e, depth=0):
         e = hir.simp(e)
+        if e.get("k") == "local" and e["name"] in lets and lets[e["name"]][1] is None and depth < 4:
+            return kind(lets[e["name"]][0], depth + 1)        # a boolean named first: `let keep = is_printable_bytes(..);`
         if hir.is_call(e, MOD + "is_printable_bytes") and len(e["args"]) == 2:
             a, bb = hir.simp(e["args"][0]), e["args"][1]
             if a.get("k") == "local" and a["name"] in lets and hir.is_local(bb, b):
